@@ -540,7 +540,15 @@ fn struct_match_arms(ast: &DeriveInput, ts: proc_macro2::TokenStream, trait_name
                         // body: a string literal | Display::fmt(x, f) | AsRef::<str>::as_ref(x)
                         let arg = match &*a.body {
                             syn::Expr::Lit(_) => a.body.as_ref().clone(),
-                            syn::Expr::Call(c) if !c.args.is_empty() => c.args[0].clone(),
+                            syn::Expr::Call(c) if !c.args.is_empty() => {
+                                // only `::core::fmt::Display::fmt(x, f)` / `::core::convert::AsRef::<str>::as_ref(x)` forward to x the way the model says
+                                let segs: Vec<String> = match &*c.func { syn::Expr::Path(p) => p.path.segments.iter().map(|s| s.ident.to_string()).collect(), _ => vec![] };
+                                let tail: Vec<&str> = segs.iter().rev().take(2).map(|s| s.as_str()).collect();
+                                let ok = (trait_name == "Display" && tail == ["fmt", "Display"] && c.args.len() == 2 && matches!(&c.args[1], syn::Expr::Path(p) if p.path.get_ident().is_some()))
+                                    || (trait_name == "AsRef" && tail == ["as_ref", "AsRef"] && c.args.len() == 1);
+                                if !ok { return Err(format!("arm body calls {} (not Display::fmt / AsRef::as_ref)", segs.join("::"))); }
+                                c.args[0].clone()
+                            }
                             _ => return Err("unsupported arm body".into()),
                         };
                         let entry = match &arg {
